@@ -79,8 +79,10 @@ theorem incr_inv (s : Cache) (E : Externals) (now : Int) (k : PyVal) (delta : In
       · inv_auto
       · rename_i s' c hst
         obtain ⟨h', hrows⟩ := store_inv hst (logSql_inv "selKey" ht)
+        have h'' := regCreated_inv c.file h'
+        have hrows' : (s'.regCreated c.file).rows = (t.logSql "selKey").rows := by rw [regCreated_rows]; exact hrows
         inv_auto
-        exact insRow_inv _ _ _ _ h' ((selKey_congr hrows dbk raw).trans hold) hnn
+        exact insRow_inv _ _ _ _ h'' ((selKey_congr hrows' dbk raw).trans hold) hnn
   | some r =>
     simp only
     split
@@ -90,6 +92,7 @@ theorem incr_inv (s : Cache) (E : Externals) (now : Int) (k : PyVal) (delta : In
         · inv_auto
         · rename_i s' c hst
           obtain ⟨h', hrows⟩ := store_inv hst (logSql_inv "selKey" ht)
+          have h'' := regCreated_inv c.file h'
           inv_auto
     · inv_auto
 
